@@ -38,6 +38,9 @@ Decided (DESIGN.md section 5, C12):
  (+) O1-index-file-open-keeps-contents  the open() whose descriptor goes into `new Map{fd}` uses O_RDWR|O_CREAT without O_TRUNC / O_EXCL
      M1-file-grown-before-mapping     every file-backed mmap() is dominated by the call that grows the file (reaches ftruncate); the members
                                       that call reads as its size source are stored before it, and the mapped length is that size
+ (+) L1-special-members-memberwise   every user-written move / copy constructor, assignment and swap of the index / mapping classes takes over
+                                      (or exchanges) every data member of its record (member list from the record facts) on every path
+     L2-moved-from-mapping-invalidated a move out of a MemoryMapping resets, after the transfer, the member the munmap() guard reads
  (6) E1-mmap-oserror-reaches-throw    ERRDISC on mmap / mremap / munmap / fstat / ftruncate / open / tmpfile / dup in the index and
                                       memory-mapping layer (is_valid() is inlined for the evaluation)
  (+) V1-mmap-vector-growth-filled-empty   every growth of an mmap_vector (constructors, reserve) fills [old extent, new extent) with
@@ -1138,16 +1141,50 @@ def mmap_vector_rules(fb, R):
         R.check(w is None and bool(elems), r2, '%s#capacity-reaches-request' % fn.q, fn.site,
                 '%s can return with capacity() < %s: %s' % (fn.q, p, describe_path(fn, w)))
     for fn in [f for f in fns if f.name == 'push_back']:
-        rs = [n for n in fn.all_nodes() if n.get('k') == 'call' and n.get('q') == MMV + '::resize' and n.get('args')
-              and U._is_plus_one(fb, fn, n['args'][0], size_f)]
+        def old_size(nid, use):
+            """expression denotes the size before the resize: the size member itself (read before `use`), or a local that was
+            initialised from it before the resize (the VALUE of an index may be saved early; a pointer may not)"""
+            x = U.scn(fn, nid)
+            if x is None:
+                return None
+            if fn.is_this_member(nid, size_f):
+                return ('member',)
+            if x.get('k') == 'var' and x.get('vk') == 'local' and x['d'] not in U.assigned_vars(fn):
+                init = U.local_init(fn, x['d'])
+                decl = next((m_ for m_ in fn.all_nodes() if m_.get('k') == 'decl' and any(v_['d'] == x['d'] for v_ in m_['vars'])), None)
+                if init is not None and decl is not None and fn.is_this_member(init, size_f):
+                    return ('local', x['d'], decl['id'])
+            return None
+        rs = []
+        for n in fn.all_nodes():
+            if n.get('k') == 'call' and n.get('q') == MMV + '::resize' and n.get('args'):
+                a_ = U.scn(fn, n['args'][0])
+                if a_ is not None and a_.get('k') == 'binop' and a_.get('op') == '+':
+                    for x_, y_ in ((a_['lhs'], a_['rhs']), (a_['rhs'], a_['lhs'])):
+                        os_ = old_size(x_, n['id'])
+                        if os_ is not None and fn.const_value(y_) == 1 and (os_[0] == 'member' or fn.elem_dominates(os_[2], n['id'])):
+                            rs.append((n, os_))
         idxs = [n for n in fn.all_nodes() if n.get('k') == 'index']
         ok = len(rs) == 1 and len(idxs) == 1
+        why = 'expected one resize(size + 1) and one write through data()[...]'
         if ok:
-            ix = U.scn(fn, idxs[0]['idx'])
-            ok = (ix is not None and ix.get('k') == 'binop' and ix.get('op') == '-' and fn.is_this_member(ix['lhs'], size_f) and fn.const_value(ix['rhs']) == 1
-                  and fn.elem_dominates(rs[0]['id'], idxs[0]['id']))
+            R_, os_ = rs[0]
+            I = idxs[0]
+            base = U.scn(fn, I['base'])
+            # the storage pointer is obtained after the resize (the mapping may have moved)
+            ok = base is not None and base.get('k') == 'call' and base.get('q', '').rsplit('::', 1)[-1] in ('data', 'begin') \
+                and not base.get('args') and fn.elem_dominates(R_['id'], base['id'])
+            why = 'the element is written through a pointer that was not re-read from data() after the resize'
+            if ok:
+                ix = U.scn(fn, I['idx'])
+                new_minus_one = ix is not None and ix.get('k') == 'binop' and ix.get('op') == '-' and fn.is_this_member(ix['lhs'], size_f) \
+                    and fn.const_value(ix['rhs']) == 1 and fn.elem_dominates(R_['id'], ix['id'])
+                saved = old_size(I['idx'], I['id'])
+                saved_old = saved is not None and saved[0] == 'local' and fn.elem_dominates(saved[2], R_['id'])
+                ok = new_minus_one or saved_old
+                why = 'the written slot is neither the new size - 1 nor the size saved before the resize'
         R.check(ok, r2, '%s#writes-last-slot-after-resize' % fn.q, fn.site,
-                '%s must resize(%s + 1) and then write slot %s - 1' % (fn.q, size_f, size_f))
+                '%s must resize(%s + 1) and then write the slot with the old size as index through data() re-read after the resize: %s' % (fn.q, size_f, why))
 
 
 def _capacity_evidence(fb, fn, val_text, cap_text, via_reserve, map_f=None):
@@ -1466,6 +1503,73 @@ def file_backed_rules(fb, R):
         R.broken('no file-backed mmap() call found in %s' % MM)
 
 
+# ------------------------------------------------------------------------------------------------ LAYOUT: special members
+
+# members deliberately not transferred member-wise: {(class, kind, field): reason}
+MEMBERWISE_EXCEPTIONS = {}
+
+
+def special_member_rules(fb, R, classes):
+    """L1: every user-written move / copy / swap of the index and mapping classes handles every data member of its record;
+       L2: a move out of a MemoryMapping invalidates the moved-from object (the member its unmap guard reads)."""
+    r1, r2 = 'L1-special-members-memberwise', 'L2-moved-from-mapping-invalidated'
+    want = set(classes) | {MAP, NLFW, 'osmium::MemoryMapping', 'osmium::AnonymousMemoryMapping', 'osmium::TypedMemoryMapping',
+                           'osmium::AnonymousTypedMemoryMapping', MMV, 'osmium::detail::mmap_vector_anon', 'osmium::detail::mmap_vector_file',
+                           'osmium::index::MapFactory'}
+    recs = [r for r in fb.records if r.q in want and r.fields]
+    done = U.memberwise_rule(fb, R, r1, recs, MEMBERWISE_EXCEPTIONS)
+    if not any(rec.q == 'osmium::MemoryMapping' for (_f, _k, _o, rec) in done):
+        R.broken('no user-written move member of osmium::MemoryMapping found')
+    # the member(s) whose value decides whether unmap() releases the mapping
+    guard_fields = set()
+    for fn in fb.functions:
+        if fn.cls != 'osmium::MemoryMapping' or not fn.has_cfg:
+            continue
+        for m in [n for n in fn.all_nodes() if E.is_extern_c(n) and n.get('q') == 'munmap']:
+            for (c, s_, b_, o_) in U.guards(fn, m['id']):
+                x = U.scn(fn, c)
+                if x is not None and x.get('k') == 'call':
+                    gb = U.getter_body(fb, fn, x)
+                    if gb is not None:
+                        guard_fields |= {g_['name'] for g_ in gb[0].all_nodes() if g_.get('k') == 'member' and g_.get('field') and gb[0].is_this_member(g_['id'])}
+                for y in fn.subtree(c):
+                    yn = fn.nodes[y]
+                    if yn.get('k') == 'member' and yn.get('field') and fn.is_this_member(y):
+                        guard_fields.add(yn['name'])
+    if not guard_fields:
+        R.broken('MemoryMapping: the guard of munmap() reads no member (cannot tell what "invalid" means)')
+    for (fn, kind, oroot, rec) in done:
+        if rec.q != 'osmium::MemoryMapping' or kind not in ('move-ctor', 'move-assign'):
+            continue
+        def inval_ok(f, root, depth=0):
+            inv = U.invalidated_fields(fb, f, root)
+            ids_ = [i for f_ in guard_fields for i in inv.get(f_, [])]
+            tr_ = [i for f_ in guard_fields for i in U.member_transfers(fb, f, kind, ('this',), root, f_)]
+            good = bool(ids_) and U.must_pass(f, f.entry, ids_, U.self_assignment_edges(f, root)) is None
+            for t in tr_:
+                if any(i != t and f.elem_dominates(t, i) for i in ids_):
+                    continue
+                if t in ids_ and f.nodes[t].get('q', '').rsplit('::', 1)[-1] == 'swap':
+                    continue    # one exchange does both
+                h = U._helper_with_other(fb, f, f.nodes[t], ('this',), root) if t in ids_ and depth < 2 else None
+                good = good and h is not None and inval_ok(h[0], ('param', h[1]), depth + 1)[0]     # both happen inside the helper: decide the order there
+            return good, tr_
+        ok, trans = inval_ok(fn, oroot)
+        R.check(ok, r2, '%s(%s)#moved-from-invalidated' % (fn.q, kind), fn.site,
+                '%s must invalidate the moved-from mapping (%s) after taking it over, otherwise both objects unmap the same address' % (fn.q, sorted(guard_fields)))
+        if kind == 'move-assign':
+            # the mapping this object holds is released before its address is overwritten
+            rel = []
+            for c_ in fn.all_nodes():
+                if c_.get('k') == 'call' and c_.get('rcls') == rec.q and 'u' in c_ and (c_.get('recv') is None or (fn.sn(c_['recv']) or {}).get('k') == 'this'):
+                    g = U._callee_for(fb, fn, c_)
+                    if g is not None and g.has_cfg and 'munmap' in fb.callees_closure(g, depth=3) | {n_.get('q') for n_ in g.all_nodes() if E.is_extern_c(n_)}:
+                        rel.append(c_['id'])
+            ok = bool(rel) and bool(trans) and all(any(fn.elem_dominates(r_, t) for r_ in rel) for t in trans)
+            R.check(ok, r2, '%s(%s)#own-mapping-released-first' % (fn.q, kind), fn.site,
+                    '%s must unmap the mapping it holds before taking over the other one (the old mapping would leak)' % fn.q)
+
+
 # ------------------------------------------------------------------------------------------------ driver
 
 def all_rules(fb, R):
@@ -1481,6 +1585,7 @@ def all_rules(fb, R):
     dump_rules(fb, R, classes)
     factory_rules(fb, R)
     file_backed_rules(fb, R)
+    special_member_rules(fb, R, classes)
     errdisc_rules(fb, R, classes)
 
 
@@ -1512,6 +1617,8 @@ def run(ctx):
     R.expect('V2-mmap-vector-size-within-capacity', 3)  # resize, reserve, push_back
     R.expect('D1-dump-writes-whole-vector', 3)
     R.expect('T1-registration-table', 50)           # 16 rows x (unique, denotes) + 8 agree + 8 register_map + factory create / register
+    R.expect('L1-special-members-memberwise', 10)    # MemoryMapping move constructor + move assignment x 5 members
+    R.expect('L2-moved-from-mapping-invalidated', 3)   # move constructor, move assignment (+ releases its own mapping first)
     R.expect('O1-index-file-open-keeps-contents', 1)   # create_map_with_fd
     R.expect('M1-file-grown-before-mapping', 2)       # MemoryMapping constructor, resize (file branch)
     R.expect('E1-mmap-oserror-reaches-throw', 9)    # mmap x2, mremap, munmap, fstat, ftruncate, open, tmpfile, dup
@@ -1526,6 +1633,7 @@ def _selftest_maps(fb, R):
     nlfw_rules(fb, R, classes)
     mmap_vector_rules(fb, R)
     file_backed_rules(fb, R)
+    special_member_rules(fb, R, classes)
 
 
 SELFTESTS = [(r, 'c12_maps.cpp', _selftest_maps) for r in (
@@ -1533,4 +1641,5 @@ SELFTESTS = [(r, 'c12_maps.cpp', _selftest_maps) for r in (
     'S2-sort-override-sorts-searched-container', 'F1-flexmem-block-offset-tiling', 'F2-flexmem-switch-carries-all',
     'F3-flexmem-mode-dispatch', 'N1-way-sorts-before-lookup', 'N2-flag-set-on-descent', 'N3-last-id-sentinel-reset',
     'N4-sign-routing-agrees', 'V1-mmap-vector-growth-filled-empty', 'V2-mmap-vector-size-within-capacity',
-    'O1-index-file-open-keeps-contents', 'M1-file-grown-before-mapping')]
+    'O1-index-file-open-keeps-contents', 'M1-file-grown-before-mapping', 'L1-special-members-memberwise',
+    'L2-moved-from-mapping-invalidated')]
